@@ -377,6 +377,10 @@ def mpu_oracle(obs, x):
     out = []
     s3 = obs.world.s3
     mech = base_mech(obs, x)
+    # (mechanism field of finding F9: a BaseException that is not an Exception was raised into request-stage work of this transfer)
+    if any(r['kind'] in BASE_KINDS and not in_submission_step(r) and r['key'].startswith(x.label + '/') for r in obs.world.director.raised) \
+            and obs.spec.get('executor', 'threaded') == 'threaded':
+        mech['base_exception_fault'] = True
     ups = [u for u in s3.uploads.values() if u['label'] == x.label]
     stats = {'uploads': len(ups), 'undelivered': 0}
     rn = result_ret_n(obs, x)
